@@ -55,6 +55,14 @@ var c07Kinds = []c07Kind{
 	{name: "filter-returns-render-source-error", src: "{{ 1 | nested_render_error }}", wraps: "cause"},
 	{name: "filter-returns-parse-source-error", src: "{{ 1 | nested_parse_error }}", wraps: "cause"},
 	{name: "filter-returns-source-error-in-tag", src: "{% assign q = 1 | nested_render_error %}", wraps: "cause"},
+	// custom tags: one returns its own error; two hand on the error of a sub-template they parsed and rendered without
+	// any location, failing on its first line - an error that says nothing about where: the tag is the failing construct
+	{name: "custom-tag-returns-own-error", src: "{% ownfail %}", wraps: "sentinel"},
+	{name: "custom-tag-passes-unlocated-parse-error", src: "{% subfail_parse %}"},
+	{name: "custom-tag-passes-unlocated-render-error", src: "{% subfail_render %}", wraps: "cause"},
+	{name: "custom-tag-passes-unlocated-syntax-error", src: "{% subfail_syntax %}", wraps: "cause"},
+	{name: "custom-tag-passes-unlocated-tag-error", src: "{% subfail_tag %}"},
+	{name: "custom-tag-passes-unlocated-error-in-branch", src: "{% if true %}{% subfail_parse %}{% endif %}"},
 	{name: "type-error", src: `{{ 1 | plus: "a" }}`, wraps: "cause"},
 	{name: "strict-undefined", src: "{{ no_such_variable }}", strict: true},
 	{name: "unterminated-block", src: "{% if true %}", parseTime: true, unclosed: true},
@@ -386,7 +394,7 @@ func init() {
 	explore.Register(&explore.Prop{
 		ID:    "C07",
 		Level: "exploration",
-		Rule: "35 kinds of failing construct (syntax error in object / tag arguments, unknown tag, unknown filter, filter's own error in object/assign/if, division by zero, type error, strict undefined variable, unterminated blocks, stray end/clause tags, include of a missing file / non-string, bad cycle) placed in the taken body of every nesting path of depth 0..2 (quick) / 0..3 (thorough) over 7 enclosing forms, " +
+		Rule: "41 kinds of failing construct (syntax error in object / tag arguments, unknown tag, unknown filter, filter's own error in object/assign/if, division by zero, type error, strict undefined variable, unterminated blocks, stray end/clause tags, include of a missing file / non-string, bad cycle) placed in the taken body of every nesting path of depth 0..2 (quick) / 0..3 (thorough) over 7 enclosing forms, " +
 			"with 0/1/2 newlines + filler independently before every opener and before the construct, with and without a newline inside every opener tag, parsed with path in {none, dir/t.html} x start line in {0,1,7}, through ParseTemplateLocation+Render and ParseAndRender; scaled: 9 kinds after 9..5000 newlines (in text, inside tags, between openers) and inside 0..40 nested blocks; " +
 			"class = (kind, fails at parse time); distinct_nontrivial counts distinct classes",
 		Assumptions: []string{
@@ -414,6 +422,20 @@ func init() {
 				}
 				e.RegisterFilter("nested_render_error", nested("x\ny\n{{ 1 | nosuchfilter }}"))
 				e.RegisterFilter("nested_parse_error", nested("\n{{ 1 | }}"))
+				e.RegisterTag("ownfail", func(render.Context) (string, error) { return "", errC07Sentinel })
+				sub := func(src string) func(render.Context) (string, error) {
+					return func(render.Context) (string, error) {
+						out, err := inner.ParseAndRenderString(src, map[string]any{})
+						if err != nil {
+							return "", err
+						}
+						return out, nil
+					}
+				}
+				e.RegisterTag("subfail_parse", sub("{% if true %}never closed")) // an error made by the parser itself: it has no cause
+				e.RegisterTag("subfail_syntax", sub("{{ 1 | }}"))
+				e.RegisterTag("subfail_tag", sub("{% include 12 %}")) // an error made by a tag at render time
+				e.RegisterTag("subfail_render", sub("{{ 1 | divided_by: 0 }}"))
 				e.RegisterBlock("passblock", func(ctx render.Context) (string, error) {
 					s, err := ctx.InnerString()
 					if err != nil {
